@@ -486,7 +486,15 @@ func (c *Ctx) Finish() int {
 	cov["evaluations"] = ev
 	cov["states"] = st
 	cov["transitions"] = tr
-	cov["traces_validated_against_impl"] = c.Traces.Load()
+	// For the direct-on-implementation checks every evaluation executes the real code on one case and
+	// compares it with the reference model's prediction for that case: each is one model trace
+	// validated against the implementation.  Checks that count replays explicitly (C03, C20) set Traces.
+	tv := c.Traces.Load()
+	if tv == 0 {
+		tv = ev
+		cov["traces_note"] = "no separate model: every evaluation runs the real code on one case and compares it with the reference model's prediction (one validated trace per evaluation)"
+	}
+	cov["traces_validated_against_impl"] = tv
 	cov["distinct_nontrivial"] = len(c.nontrivial)
 	if c.ntOverflow > 0 {
 		cov["distinct_nontrivial_note"] = fmt.Sprintf("distinct-key set capped at %d; %d further keys not counted", ntCap, c.ntOverflow)
